@@ -67,6 +67,8 @@ def oracle(name: str, args):
         return mp.conj(z)
     if name in ("atan", "arctan"):
         return mp.atan(z)
+    if name == "cbrt":
+        return mp.cbrt(z)
     return None
 
 
